@@ -73,7 +73,7 @@ pub fn id() -> BoxedStrategy<String> {
 /// ids drawn from a small pool (so that filters / statistics see collisions)
 pub fn pool_id() -> BoxedStrategy<String> {
     prop::sample::select(vec![
-        "", "A", "APP", "APP1", "CTX", "ECU", "é", "€a", "TEST", "Ab7 ", "NONE", "APP ",
+        "", "A", "APP", "APP1", "CTX", "ECU", "é", "€a", "TEST", "Ab7 ", "NONE", "APP ", "app", "Ecu",
     ])
     .prop_map(|s| s.to_string())
     .boxed()
